@@ -192,7 +192,7 @@ def r201(chk, m):
 def r202(chk, m):
     R = chk.rule('R20.2', 'attribute round trip on a heap object: Macro.restore({name: value}) succeeds for every name in '
                  'Macro.refAttributes and stores the value where neither Macro nor the renderable mix-in has a read-only property; '
-                 'Macro.persist returns exactly the refAttributes that are set, nodes as strings', 7)
+                 'Macro.persist returns exactly the refAttributes that are set (also when set to an empty value), nodes as strings', 8)
     Macro = m.cls('plasTeX', 'Macro')
     ra = m.class_const(Macro, 'refAttributes')
     need(isinstance(ra, list) and len(ra) >= 5, 'Macro.refAttributes does not fold')
@@ -237,6 +237,17 @@ def r202(chk, m):
     want = ('return', plain({'macroName': 'section', 'title': 'str(titlenode)', 'id': 'sec:a'}))
     chk.decide(R, 'Macro.persist saves exactly the refAttributes that are set', {repr(g) for g in got}, {repr(want)},
                'persist() of a node with macroName, a title node and an id (ref unset) gives %s; expected %s' % (sorted(got, key=repr), want), chk.where(per))
+    # set but empty is not unset: an empty number (\renewcommand{\thesection}{}) or an empty caption name is saved as it is
+    obj = A.Obj('node', dict({k: None for k in ra}, macroName='section', title='Plain title', ref='', id='sec:b'), cls=Macro)
+    hk = H()
+    hk.should_inline = A.private_only
+    it = A.Interp(model=m, scope=per, hooks=hk, max_iter=10, exc_edges=False, inline=3, heap=True, precise_exc=True)
+    outs = it.run_function(per, env={'self': obj, 'attrs': None, 'self.refAttributes': list(ra)})
+    got = {(kind, plain(v) if isinstance(v, dict) else 'TOP') for kind, s2, v in outs}
+    want = ('return', plain({'macroName': 'section', 'title': 'Plain title', 'ref': '', 'id': 'sec:b'}))
+    chk.decide(R, 'Macro.persist saves attributes that are set but empty', {repr(g) for g in got}, {repr(want)},
+               'persist() of a node with macroName, a title, an empty ref and an id gives %s; expected %s - only None means "not set"'
+               % (sorted(got, key=repr), want), chk.where(per))
 
 
 def helper_calls(m, fn, depth=3):
